@@ -1,11 +1,18 @@
 import Traph
-/-! C16 — cooperative interleaving of generators. The four generators are explicit coroutine state
-    machines (`Traph/Co.lean`) holding the same stale node copies as the Python generators; `runSched`
-    interleaves them under any schedule. Proved so far: the two query machines never write (whatever the
-    schedule does around them); the phantom-page schedule of finding F16 is a theorem about the model
-    (`C16_phantom_witness`), i.e. the clause "no item that qualified at no moment" is false of the code;
-    safety of the writer sections is tied by correspondence on random schedules (both statuses and bytes)
-    and, per request, by the heap-order theorems of Proofs/LeOps. -/
+import Proofs.CoSchedules
+import Proofs.CoPhantom
+/-! C16 — cooperative interleaving of generators. The four generators are explicit coroutine state machines
+    (`Traph/Co.lean`) holding the same stale node copies as the Python generators; `Sys.run` / `runSched`
+    interleave them under any schedule. Proved (Proofs/Co*): for EVERY schedule the index stays well-formed and
+    only grows (`C16_any_schedule_shape`), no writer fails (`C16_no_writer_fails`), the final pages are those of
+    the requests applied one after another in any order (`C16_final_pages`, `_sequential_rulesOk`), link lists
+    are never overwritten (`C16_links_any_schedule`), page queries list only pages (`C16_pages_query_sound`) and
+    list every page that qualified throughout (`C16_pages_query_complete_entries`); the query machines never
+    write. The clause "no item that qualified at no moment" is FALSE of the code: finding F16 is a theorem about
+    the model (Proofs/CoPhantom, `C16_phantom_*`). Not proved: equality of the final link MULTISET with the
+    sequential one and in/out symmetry under schedules (only "nothing lost, each write prepends exactly its
+    targets" is); fuel sufficiency of the query machines; semantics of the network machine's answer. These are
+    tied by the schedule correspondence and the oracle. -/
 namespace Traph.Props
 open Traph State
 
@@ -21,5 +28,97 @@ theorem C16_finished (s : State) : (CoSt.finished.resume s).1 = s ∧ (CoSt.fini
 
 /-- an empty schedule does nothing; schedules compose -/
 theorem C16_sched_nil (s : State) (cos : List CoSt) : runSched s cos [] = (s, cos, []) := rfl
+
+section Lifted
+open Traph State Layout
+/-! ### every schedule (Proofs/Co*): `Sys.run (s, machines) sched` advances machine `sched[i]` by one section at step `i` -/
+
+/-- for EVERY schedule of EVERY list of machines in any states: the index keeps representing a search tree, every old entry keeps its block, the heap order and the link lists only grow (no assumption on the machines' private states) -/
+theorem C16_any_schedule_shape (sched : Sched) (σ : Sys) (t : T) (h : Shape σ.1 t) :
+    ∃ t', Ext σ.1 t (σ.run sched).1.1 t' ∧ σ.1 ⊑ (σ.run sched).1.1 ∧ CoLinkStep σ.1 (σ.run sched).1.1 :=
+  Traph.sched_shape sched σ t h 
+
+/-- no request fails: when every rule flag in the trie has its rule in RAM (`RulesOk`, true of every state reached with rules re-supplied as the API requires: `rulesOk_run`) no writer section of any schedule raises; the only failure ever reported is advancing a finished generator -/
+theorem C16_no_writer_fails {s : State} {t : T} (hs : Shape s t) (hi : Inv s t) (hr : RulesOk s)
+    (reqs : List CoReq) (hwf : ∀ r ∈ reqs, r.Wf) (hcanon : ∀ r ∈ reqs, r.Canon) (sched : Sched) :
+    RulesOk (Sys.run (s, reqs.map CoReq.init) sched).1.1 ∧
+    ∀ i r e, reqs[i]? = some r → r.op ≠ none →
+      (i, CoOut.failed e) ∈ (Sys.run (s, reqs.map CoReq.init) sched).2 → e = .other "StopIteration" :=
+  Traph.C16_no_writer_fails hs hi hr reqs hwf hcanon sched
+
+/-- final pages: once every writer has returned, under ANY schedule, the pages (and crawled marks) are those before plus exactly those of the requests -/
+theorem C16_final_pages {s : State} {t : T} (hs : Shape s t) (hi : Inv s t) (reqs : List CoReq)
+    (hwf : ∀ r ∈ reqs, r.Wf) (sched : Sched)
+    (hdone : ∀ i r, reqs[i]? = some r → r.op ≠ none →
+      ∃ a, (i, CoOut.done a) ∈ (Sys.run (s, reqs.map CoReq.init) sched).2) :
+    ∃ t', Shape (Sys.run (s, reqs.map CoReq.init) sched).1.1 t' ∧
+      Inv (Sys.run (s, reqs.map CoReq.init) sched).1.1 t' ∧
+      s ⊑ (Sys.run (s, reqs.map CoReq.init) sched).1.1 ∧
+      (∀ p, IsPage (Sys.run (s, reqs.map CoReq.init) sched).1.1 t' p ↔
+        IsPage s t p ∨ ∃ r ∈ reqs, ∃ x ∈ r.pages, x.1 = p) ∧
+      (∀ p, IsCrawled (Sys.run (s, reqs.map CoReq.init) sched).1.1 t' p ↔
+        IsCrawled s t p ∨ ∃ r ∈ reqs, ∃ x ∈ r.pages, x.1 = p ∧ x.2.1 = true) :=
+  Traph.C16_final_pages hs hi reqs hwf sched hdone
+
+/-- …hence the same as applying the requests one after another in any order -/
+theorem C16_final_pages_sequential_rulesOk {s : State} {t : T} (hs : Shape s t) (hi : Inv s t) (hr : RulesOk s)
+    (reqs : List CoReq) (hwf : ∀ r ∈ reqs, r.Wf) (hcanon : ∀ r ∈ reqs, r.Canon) (sched : Sched)
+    (hdone : ∀ i r, reqs[i]? = some r → r.op ≠ none →
+      ∃ a, (i, CoOut.done a) ∈ (Sys.run (s, reqs.map CoReq.init) sched).2)
+    (reqs' : List CoReq) (hperm : reqs'.Perm reqs) :
+    ∃ t' t'', Shape (Sys.run (s, reqs.map CoReq.init) sched).1.1 t' ∧
+      Shape (s.run (reqs'.filterMap CoReq.op)) t'' ∧
+      (∀ p, IsPage (Sys.run (s, reqs.map CoReq.init) sched).1.1 t' p ↔
+        IsPage (s.run (reqs'.filterMap CoReq.op)) t'' p) ∧
+      (∀ p, IsCrawled (Sys.run (s, reqs.map CoReq.init) sched).1.1 t' p ↔
+        IsCrawled (s.run (reqs'.filterMap CoReq.op)) t'' p) :=
+  Traph.C16_final_pages_sequential_rulesOk hs hi hr reqs hwf hcanon sched hdone reqs' hperm
+
+/-- refresh-before-write: under any schedule every link list of before is a suffix of the list after (a section never overwrites a head another machine wrote meanwhile) and heads stay in range -/
+theorem C16_links_any_schedule {s : State} {t : T} (hs : Shape s t) (hk : HeadsOk s) (cos : List CoSt)
+    (sched : Sched) :
+    HeadsOk (Sys.run (s, cos) sched).1.1 ∧ LinkGrow s (Sys.run (s, cos) sched).1.1 :=
+  Traph.C16_links_any_schedule hs hk cos sched
+
+/-- page query, one bound: whatever the schedule, every listed item is a page of the final index with a correct crawled mark -/
+theorem C16_pages_query_sound {s : State} {t : T} (hs : Shape s t) (hi : Inv s t) (reqs : List CoReq)
+    (hwf : ∀ r ∈ reqs, r.Wf) (sched : Sched) (i : Nat) (ps : List Bytes) (a : Ans)
+    (hreq : reqs[i]? = some (.queryPages ps))
+    (hdone : (i, CoOut.done a) ∈ (Sys.run (s, reqs.map CoReq.init) sched).2) :
+    ∃ t', Shape (Sys.run (s, reqs.map CoReq.init) sched).1.1 t' ∧
+      ∃ l, a = .pages l ∧ ∀ x ∈ l,
+        IsPage (Sys.run (s, reqs.map CoReq.init) sched).1.1 t' (lruIter x.1) ∧
+        (x.2 = true → IsCrawled (Sys.run (s, reqs.map CoReq.init) sched).1.1 t' (lruIter x.1)) :=
+  Traph.C16_pages_query_sound hs hi reqs hwf sched i ps a hreq hdone
+
+/-- page query, other bound: a page that lies below the queried prefix and is not separated from it by a webentity THROUGHOUT the execution (before, between and after all sections) is listed -/
+theorem C16_pages_query_complete_entries {s : State} {t : T} (hs : Shape s t) (hi : Inv s t) (reqs : List CoReq)
+    (hwf : ∀ r ∈ reqs, r.Wf) (sched : Sched) (i : Nat) (ps : List Bytes)
+    (hreq : reqs[i]? = some (.queryPages ps)) (pf : Bytes) (hpf : pf ∈ ps) (root b : Nat) (r : LRU) (hr : r ≠ [])
+    (hq : (lruIter pf, root) ∈ t.entries s []) (hb : (lruIter pf ++ r, b) ∈ t.entries s [])
+    (hclear : Throughout (fun s' => (s'.cell b).flags.page = true ∧ (s'.cell b).we = 0 ∧
+        ∀ k m, 0 < k → k < r.length → (lruIter pf ++ r.take k, m) ∈ t.entries s [] → (s'.cell m).we = 0)
+      (s, reqs.map CoReq.init) sched)
+    (l : List (Bytes × Bool))
+    (hdone : (i, CoOut.done (.pages l)) ∈ (Sys.run (s, reqs.map CoReq.init) sched).2) :
+    ∃ cr, ((lruIter pf ++ r).flatten, cr) ∈ l :=
+  Traph.C16_pages_query_complete_entries hs hi reqs hwf sched i ps hreq pf hpf root b r hr hq hb hclear l hdone
+
+end Lifted
+
+/-- FINDING F16 AS A THEOREM: on this index and schedule the page query of webentity 1 lists `…p:x|p:z|`, which is
+    not in the index before the batch's section and belongs to webentity 3 from then on — it qualified at no moment.
+    (The same history is the stored witness findings/F16.json, replayed on the real code by every run.) -/
+theorem C16_phantom_witness :
+    (0, CoOut.done (.pages [(Phantom.px, false), (Phantom.py, false), (Phantom.pz, true)])) ∈
+      (Sys.run (Phantom.before, Phantom.reqs.map CoReq.init) [0, 1, 0, 0, 0]).2 ∧
+    Phantom.before.ask (.lruNode Phantom.pz) = .optNat none ∧
+    Phantom.before.ask (.pages [Phantom.pa]) = .pages [(Phantom.px, false), (Phantom.py, false)] ∧
+    Phantom.after.ask (.retrieveWebentity Phantom.pz) = .nat 3 ∧
+    Phantom.after.ask (.pages [Phantom.pa]) = .pages [] ∧
+    (Sys.run (Phantom.before, Phantom.reqs.map CoReq.init) [0]).1.1 = Phantom.before ∧
+    (Sys.run (Phantom.before, Phantom.reqs.map CoReq.init) [0, 1, 0, 0, 0]).1.1 = Phantom.after :=
+  ⟨Phantom.answer_lists_pz, Phantom.before_not_a_page.1, Phantom.before_not_a_page.2,
+   Phantom.after_foreign.1, Phantom.after_foreign.2.2, Phantom.index_states.1, Phantom.index_states.2.2.2⟩
 
 end Traph.Props
